@@ -154,6 +154,10 @@ pub struct Engine<'a> {
     /// light sweep (Miri / valgrind): look up only the class just operated on and one other
     pub light: bool,
     pub focus: u32,
+    /// quiet history: the per-step sweep only iterates; the by-key lookups of every class run on every 16th
+    /// step only.  Lookups are operations too - a container that caches something about its last lookup is
+    /// put into the same state by every full sweep, and what goes stale between two USER calls stays hidden.
+    pub quiet: bool,
 }
 
 impl<'a> Engine<'a> {
@@ -334,6 +338,9 @@ impl<'a> Engine<'a> {
         s.order.clear();
         s.order.extend(seen.iter().map(|x| x.0));
         if self.h.failed {
+            return;
+        }
+        if self.quiet && self.h.step % 16 != 0 {
             return;
         }
         let other = 1 + (self.focus + 1 + self.h.step) % self.universe.max(1);
@@ -1292,7 +1299,12 @@ pub fn history<F: Fam, const N: usize>(cx: &mut Ctx, hist: u64, mut rng: Rng, ma
         universe: if <F::K as KeyF>::norm(7) != 7 { 1 } else { N as u32 + 3 },
         light: false,
         focus: 1,
+        quiet: false,
     };
+    e.quiet = e.rng.chance(1, 4);
+    if e.quiet {
+        e.cx.rep.hit("quiet-history");
+    }
     e.light = e.cx.args.flag("light");
     e.h.own_prop = e.cx.prop.clone();
     e.h.tag_mod = F::TAG_MOD;
